@@ -124,6 +124,27 @@ impl Em {
         match r { Some((post, out)) => { self.o.u(0); enc_state(&mut self.o, &post); self.o.u(out.len() as u32); for l in out.iter() { self.o.s(l); } } None => self.o.u(1) }
         self.o.nl(); self.bump("display_probes"); self.maybe_flush();
     }
+    /// safety probe: does the operation panic from this (possibly out-of-contract) state? Compared by the driver with the
+    /// checked-arithmetic conditions of coq/Safe.v (record kind 9). The caller keeps operations that would loop ~2^32 times away.
+    pub fn safety_probe(&mut self, pre: &Screen, op: &Op) {
+        if !self.next_id() { return; }
+        self.note_state(pre); self.note_op(op);
+        self.arm(format!("safety probe {}x{} cursor=({},{}) margins={:?} op={:?}", pre.columns, pre.lines, pre.cursor.x, pre.cursor.y, pre.margins.map(|m| (m.top, m.bottom)), op));
+        let mut f = fork(pre);
+        let opc = op.clone();
+        let r = safe(move || { opc.apply(&mut f); });
+        self.o.u(9); self.o.i(self.id); enc_state(&mut self.o, pre); op.enc(&mut self.o); self.o.u(if r.is_some() { 0 } else { 1 });
+        self.o.nl(); self.bump("safety_probes"); self.bump(if r.is_some() { "safety_no_panic" } else { "safety_panic" });
+        self.maybe_flush();
+    }
+    /// Screen::new(cols, lines) for sizes including 0: panics or not (record kind 10)
+    pub fn init_probe(&mut self, cols: u32, lines: u32) {
+        if !self.next_id() { return; }
+        self.arm(format!("Screen::new({}, {})", cols, lines));
+        let r = safe(move || { let _ = Screen::new(cols, lines); });
+        self.o.u(10); self.o.i(self.id); self.o.u(cols); self.o.u(lines); self.o.u(if r.is_some() { 0 } else { 1 });
+        self.o.nl(); self.bump("safety_probes"); self.bump(if r.is_some() { "safety_no_panic" } else { "safety_panic" });
+    }
     pub fn init_check(&mut self, cols: u32, lines: u32) {
         if !self.next_id() { return; }
         if let Some(s) = safe(|| Screen::new(cols, lines)) { self.o.u(8); self.o.i(self.id); self.o.u(cols); self.o.u(lines); enc_state(&mut self.o, &s); self.o.nl(); self.bump("init_checks"); }
